@@ -162,12 +162,18 @@ class CreateFunction(ddl.DDLOperation, FunctionOperation):
     def code(self) -> str:
         args = self.format_args(self.function.args, self.function.has_variadic)
 
+        text = textwrap.dedent(self.function.text).strip()
+        tag, n = '$____funcbody____$', 0
+        while tag in text + tag[:-1]:
+            n += 1
+            tag = f'$____funcbody{n}____$'
+
         code = textwrap.dedent('''
             CREATE {replace} FUNCTION {name}({args})
             RETURNS {setof} {returns}
-            AS $____funcbody____$
+            AS {tag}
             {text}
-            $____funcbody____$
+            {tag}
             LANGUAGE {lang} {volatility} {strict} {parallel};
         ''').format_map({
             'replace': 'OR REPLACE' if self.or_replace else '',
@@ -176,7 +182,8 @@ class CreateFunction(ddl.DDLOperation, FunctionOperation):
             'returns': qt(self.function.returns),
             'lang': self.function.language,
             'volatility': self.function.volatility.upper(),
-            'text': textwrap.dedent(self.function.text).strip(),
+            'text': text,
+            'tag': tag,
             'strict': 'STRICT' if self.function.strict else '',
             'setof': 'SETOF' if self.function.set_returning else '',
             'parallel': (
